@@ -10,7 +10,7 @@
 static int g_pcb_calls, g_pcb_ret; static cfg_t *g_pcb_cfg; static cfg_opt_t *g_pcb_opt; static const char *g_pcb_text;
 static long g_pcb_long; static void *g_pcb_ptr; static const char *g_pcb_str;
 static int cfgv_parsecb_int(cfg_t *cfg, cfg_opt_t *opt, const char *value, void *result)
-{ g_pcb_calls++; g_pcb_cfg = cfg; g_pcb_opt = opt; g_pcb_text = value; if (g_pcb_ret == 0) *(long *)result = g_pcb_long; return g_pcb_ret; }
+{ g_pcb_calls++; g_pcb_cfg = cfg; g_pcb_opt = opt; g_pcb_text = value; if (g_pcb_ret == 0) *(long *)result = g_pcb_long; errno = nondet_int(); return g_pcb_ret; }
 static int cfgv_parsecb_ptr(cfg_t *cfg, cfg_opt_t *opt, const char *value, void *result)
 { g_pcb_calls++; g_pcb_cfg = cfg; g_pcb_opt = opt; g_pcb_text = value; if (g_pcb_ret == 0) *(void **)result = g_pcb_ptr; return g_pcb_ret; }
 static _Bool g_pcb_nowrite;     /* the callback accepts but hands nothing back (leaves the result variable alone) */
@@ -38,6 +38,7 @@ static void b_setopt_pcb_int(unsigned n)
 	o.parsecb = cfgv_parsecb_int;
 	snap(&o, &s);
 	g_pcb_calls = 0; g_pcb_ret = nondet_int(); g_pcb_long = nondet_long();
+	errno = nondet_int();      /* whatever errno is before or after the callback: its return value alone is the verdict */
 	r = cfg_setopt(&cfg, &o, text);
 	CHECK("C14", g_pcb_calls <= 1 && (r == NULL || g_pcb_calls == 1), "the value-parsing callback is invoked exactly once per stored value (never twice; not at all only when the slot could not be allocated)");
 	CHECK("C14", g_pcb_calls == 0 || (g_pcb_cfg == &cfg && g_pcb_opt == &o && g_pcb_text == text), "the value-parsing callback receives the context, the option and the token text");
